@@ -22,7 +22,7 @@ RULE = ("one run = document + scheduled delivery + history with failing calls; f
 PROBES = ["failed_call", "failed_in_a_row", "failed_with_placeholder", "failed_version_undecided",
           "failed_obj_add", "legal_after_failure"]
 # process_line_queue ('flush') is not one of the calls C08 names (add, rename, remove, edit a field)
-MUTATING = ("add", "rm", "rename", "set_tag", "del_tag", "set_field", "readd_connected", "set_datatype")
+MUTATING = ("add", "rm", "rename", "set_tag", "del_tag", "set_field", "readd_connected", "set_datatype", "header_add")
 
 
 def gen(streams, tier, i):
@@ -125,7 +125,9 @@ def run(scn, st):
             from ..gtext import canon_lines
             try:
                 a = canon_lines(ob.line_text(lo), lo.version if lo.version in ("gfa1", "gfa2") else None)
-                b = canon_lines(op["line"], lo.version if lo.version in ("gfa1", "gfa2") else None)
+                before = getattr(w, "last_line_obj_text", None)
+                b = canon_lines(before if before is not None else op["line"],
+                                lo.version if lo.version in ("gfa1", "gfa2") else None)
             except Exception:
                 a = b = None
             if a != b:
